@@ -748,7 +748,10 @@ with itemLoop (n : nat) (rd : reader) (itemLines attached : str) (attachedDone :
                   end
               end
             else if (blankLines =? 1)%Z then
+              saved <- gets s_listids ;;
+              modify (fun s => set_listids s []) ;;;
               r <- dblocks_render rd2 lists_allowed1 ;;
+              modify (fun s => set_listids s saved) ;;;
               match r with
               | (Some out, rd3) => itemLoop n' rd3 itemLines (attached ++ out) true
               | (None, rd3) => ret (None, rd3, itemLines, attached)
